@@ -664,6 +664,19 @@ def run(ctx):
                "the reader splits a flattened key only a bounded number of times: a dictionary nested deeper than that (e.g. a dict-valued flow option inside flow_kwargs) "
                "reloads flat with dotted keys", disc="depth")
 
+    # the separator is not escaped: a key that contains it (a parameter called "m.1" in the nested samples layout, a prior_bounds key) is written as one flattened
+    # key and split into two levels by the reader.  Accepted: the writer tests the key for the separator (raise) or rewrites it (replace / quote) before joining.
+    guarded_sep = False
+    for n in ast.walk(rs.node):
+        if isinstance(n, ast.Compare) and any(isinstance(o_, (ast.In, ast.NotIn)) for o_ in n.ops) and isinstance(n.left, ast.Constant) and n.left.value == sep_w:
+            guarded_sep = True
+        if isinstance(n, ast.Call) and isinstance(n.func, ast.Attribute) and n.func.attr in ("replace", "quote", "translate") and any(
+                isinstance(a_, ast.Constant) and a_.value == sep_w for a_ in n.args):
+            guarded_sep = True
+    ctx.decide(guarded_sep, "C13.flatten", rs.ident, loc_of(rs), f"a key that contains the separator {sep_w!r} is rejected or escaped before it is joined",
+               f"nested keys are joined with {sep_w!r} as they are: a key that contains {sep_w!r} itself -- a parameter named 'm.1' in the nested samples layout, a prior_bounds entry -- is "
+               "written as one flattened name and split into two levels on reload, so Samples.load raises KeyError and a configuration comes back with another nesting", disc="escape")
+
     # (2) samples codec, (3) dtype codec
     for wname, rname, arg in (("encode_samples", "decode_samples", "encoded_samples"), ("encode_dtype", "decode_dtype", "encoded_dtype")):
         w, r = repo.func(f"{U}:{wname}"), repo.func(f"{U}:{rname}")
@@ -1016,6 +1029,7 @@ MUTANTS += [
 ]
 
 NEUTRALS = [
+    M("writer rejects keys that contain the flattening separator (repairs the escape finding)", _U, "full_key = f\"{prefix}.{key}\" if prefix else key", "if \".\" in key:\n                raise ValueError(f\"key {key!r} contains the separator\")\n            full_key = f\"{prefix}.{key}\" if prefix else key"),
     M("encoder drops the per-sample weights, which are rebuilt on construction", "src/aspire/samples.py", "dictionary[\"xp\"] = self.xp.__name__\n        return dictionary", "dictionary[\"xp\"] = self.xp.__name__\n        for name in (\"log_w\", \"weights\"):\n            dictionary.pop(name, None)\n        return dictionary"),
     M("arrays with at least one axis written gzip-compressed", "src/aspire/utils.py", "g.create_dataset(full_key, data=encode_for_hdf5(value))",
       "data = encode_for_hdf5(value)\n                    if getattr(data, \"ndim\", 0) > 0 and data.size > 0:\n                        g.create_dataset(full_key, data=data, compression=\"gzip\")\n                    else:\n                        g.create_dataset(full_key, data=data)"),
